@@ -661,6 +661,24 @@ func genC02(g *Gen) {
 		}
 	}
 
+	// (R2) ONE bitmap of 2^17+3 words in BOTH tiers (seeded change C02-c02c-m2: a rank index that is counted in
+	// parallel from 2^17 words on and leaves the last len%parts entries without the preceding chunks' totals): one
+	// 1-bit per word and two in each of the last three words, queries in the last three words.  These are also the
+	// slowest cases of the run, so ./check re-runs them under GOMAXPROCS 3/33/97.
+	{
+		n := 1<<17 + 3
+		runs := []c02Run{{n - 3, 1 << 63}, {3, 0x8000000000000001}}
+		txt := c02RunsText(runs)
+		cnt := n + 3
+		key := fmt.Sprintf("rle/lastwords/nw%d", n)
+		g.Stat("rle-lastwords")
+		g.Do("bitmap.IndexSelect32R64/rle", L(txt), key)
+		for _, i := range []int{cnt - 1, cnt - 4, cnt - 6} {
+			g.Do("bitmap.Select32R64/rle", L(txt, Int(i)), key)
+		}
+		g.Do("bitmap.Select32/rle", L(txt, Int(cnt-2)), key)
+	}
+
 	// (H) held indexes over ASCENDING bitmap lengths 1..70, first thing in the run: an index that
 	// aliases a reused buffer shows when the buffer's capacity boundary is crossed, which depends
 	// on the order of sizes.  The decoy (all-ones) has more checkpoints than any ws of that length.
